@@ -100,6 +100,49 @@ def layouts(quick, rng):
     return out
 
 
+def random_layouts(rng, n):
+    """Random chains (1..3 operator calls, argument names from a pool of three so that they
+    collide, bodies with nested lambdas of equal or different names and lambda-like strings) laid
+    out with random line breaks between ANY two tokens inside the enclosing parentheses, random
+    indentation and code-like comments.  Such layouts may be refused; they must never record a
+    different lambda."""
+    import io
+    import tokenize
+    out = []
+    ops = ["Select", "Where", "SelectMany"]
+    for _ in range(n):
+        k = rng.randint(1, 3)
+        stages = []
+        for _s in range(k):
+            op = rng.choice(ops)
+            v = rng.choice(["x", "y", "e"])
+            w = v if rng.random() < 0.3 else rng.choice(["j", "x", "y"])
+            lam = L(v, rng.randrange(40), w=w, boolean=(op == "Where"))
+            stages.append((op, lam))
+        flat = "(ds" + "".join(f".{op}({lam})" for op, lam in stages) + ")"
+        toks = list(tokenize.generate_tokens(io.StringIO(flat).readline))
+        pieces = []
+        p_break = rng.choice([0.05, 0.15, 0.35])
+        prev_end = 0
+        for i, tk in enumerate(toks):
+            if tk.type in (tokenize.ENDMARKER, tokenize.NEWLINE, tokenize.NL):
+                continue
+            gap = flat[prev_end:tk.start[1]] if tk.start[0] == 1 else " "
+            if 0 < i and pieces and rng.random() < p_break and tk.string != ")" or \
+                    (pieces and tk.string == "." and rng.random() < 0.5):
+                cm = rng.choice(["", "", "  # lambda z: z.q, (", "  # ) ]"])
+                gap = cm + "\n" + " " * rng.choice([0, 2, 4, 8])
+            pieces.append(gap + tk.string)
+            prev_end = tk.end[1]
+        code = "".join(pieces)
+        try:
+            ast.parse(code, mode="eval")
+        except SyntaxError:
+            continue
+        out.append((code, stages, False, "random-layout"))
+    return out
+
+
 CONTEXTS = [
     ("top", "{stmt}"),
     ("def", "def _ctx{n}():\n    return {stmt}\n_r = _ctx{n}()"),
@@ -144,6 +187,9 @@ def run(t):
                    "comprehension) = indentation 0..3, plus one-line defs; non-trivial = at least "
                    "two lambdas compete on the scanned lines; distinct by (context, layout text)")
     lays = layouts(quick, rng)
+    rl = random_layouts(rng, 60 if quick else 3000)
+    t.bounds.append(f"{len(rl)} random layouts (seeded)")
+    lays = lays + rl
     parts = [srcgen.PRELUDE,
              "def ident(f):\n    return f\ndef ident2(a, b):\n    return b\ndef deco(f):\n    return f\n"
              "def f1(e): return e.a + 1\ndef f2(e):\n    'doc'\n    return e.b\n"]
